@@ -241,12 +241,48 @@ func vC08Run(t *testing.T, c *vh.Case, sc vC08Sc) {
 	start := time.Now()
 	ch := n.D.FindProvidersAsync(ctx, cidKey, sc.Count)
 	var ys []vC08Yield
-	for ai := range ch {
-		ys = append(ys, vC08Yield{VT: time.Now(), AI: ai})
-		if sc.SlowMs > 0 {
-			time.Sleep(time.Duration(1+r.Intn(sc.SlowMs)) * time.Millisecond)
+	// Half of the cancelled searches have a consumer that stops reading at the cancellation (the
+	// usual "cancel and walk away" caller): the channel must be closed all the same, no producer
+	// may stay blocked sending on it.
+	abandon, abandoned := sc.CancelAt > 0 && c.Idx%2 == 0, false
+	var gone <-chan struct{}
+	if abandon {
+		gone = ctx.Done()
+	}
+consume:
+	for {
+		select {
+		case ai, ok := <-ch:
+			if !ok {
+				break consume
+			}
+			ys = append(ys, vC08Yield{VT: time.Now(), AI: ai})
+			if sc.SlowMs > 0 {
+				time.Sleep(time.Duration(1+r.Intn(sc.SlowMs)) * time.Millisecond)
+			}
+			if abandon && ctx.Err() != nil { // cancelled while this value was being handled
+				abandoned = true
+				break consume
+			}
+		case <-gone:
+			abandoned = true
+			break consume
 		}
 	}
+	if abandoned {
+		time.Sleep(time.Second) // the bound of clause channel-closed-after-cancel
+		synctest.Wait()
+		select {
+		case ai, ok := <-ch:
+			c.Check(!ok, "channel-closed-after-cancel", "the consumer stopped reading when the search was cancelled; 1 s later the channel is not closed: a producer was still blocked sending %s on it", n.Name(ai.ID))
+		default:
+			c.Check(false, "channel-closed-after-cancel", "the consumer stopped reading when the search was cancelled; 1 s later the channel is still open")
+		}
+		for range ch { // let whatever is left conclude
+		}
+		c.Obs("abandoned_searches", 1)
+	}
+	c.Set("consumer_abandons_at_cancel", abandon)
 	closeVT := time.Now()
 	cancelled := ctx.Err() != nil
 	cancel()
@@ -397,7 +433,7 @@ func vC08Run(t *testing.T, c *vh.Case, sc vC08Sc) {
 	}
 	// (f) closed in time (the hang watchdog covers "never")
 	cancelVT := time.Unix(0, cancelNs.Load())
-	if sc.SlowMs == 0 {
+	if sc.SlowMs == 0 && !abandoned { // (an abandoned search was judged above)
 		c.Check(!closeVT.After(lastWire.Add(time.Second)), "channel-closed-in-time", "channel closed at +%v, more than 1 s after the last RPC/dial of the search concluded (+%v)", closeVT.Sub(start), lastWire.Sub(start))
 		if cancelled && cancelNs.Load() != 0 {
 			c.Check(!closeVT.After(cancelVT.Add(time.Second)), "channel-closed-after-cancel", "search cancelled at +%v, channel closed only at +%v", cancelVT.Sub(start), closeVT.Sub(start))
